@@ -166,7 +166,8 @@ def check_get_response(report):
     r2.check(len(ctor) == 1 and any(k.arg == "file" and ast.unparse(k.value) == f"list({OF}.values())" for k in ctor[0].keywords), p, fn.lineno,
              ast.unparse(ctor[0])[:100] if ctor else "", "the response must be built from the dict's values")
     # feature flag
-    rets = [n for n in ast.walk(fn) if isinstance(n, ast.Return)]
+    from ..skq import own_body_walk as _obw
+    rets = [n for n in _obw(fn) if isinstance(n, ast.Return)]        # (returns of nested helper functions are not returns of get_response)
     cfg = CFG(fn.body)
     flag = [n for n in fn.body if isinstance(n, ast.AugAssign) and isinstance(n.op, ast.BitOr) and "supported_features" in ast.unparse(n.target)
             and "FEATURE_PROTO3_OPTIONAL" in ast.unparse(n.value)]
@@ -329,8 +330,13 @@ def check_naming(report):
              and {"proto_package", "version"} <= {k_.arg for k_ in n.value.keywords}]
     ov = [n for n in fn.body if isinstance(n, ast.If) and ast.unparse(n.test) in ("opts.name", "opts.namespace")]
     r5.instance("CLI overrides")
+    # each override either replaces in place (`if opts.name: info = dataclasses.replace(info, name=...)`) or is collected and applied by one
+    # later dataclasses.replace(info, **overrides); either way the replace comes after the inference
+    later_replace = [st for st in fn.body if infer and fn.body.index(st) > fn.body.index(infer[0]) and "dataclasses.replace(" in ast.unparse(st)]
     r5.check(len(infer) == 1 and len(ov) == 2 and all(fn.body.index(o) > fn.body.index(infer[0]) for o in ov)
-             and all("dataclasses.replace(" in ast.unparse(o) for o in ov), p, fn.lineno, "name / namespace overrides",
+             and (all("dataclasses.replace(" in ast.unparse(o) for o in ov)
+                  or (later_replace and all(fn.body.index(later_replace[-1]) > fn.body.index(o) for o in ov) and "**" in ast.unparse(later_replace[-1]))),
+             p, fn.lineno, "name / namespace overrides",
              "explicit name / namespace options must replace the inferred values (after inference)")
     k = {x.arg: ast.unparse(x.value) for x in infer[0].value.keywords} if infer else {}
     r5.check(k.get("version") == "match.get('version', '')" and k.get("proto_package") == "root_package", p, fn.lineno, str(k)[:200],
